@@ -1,6 +1,6 @@
 (* C08 -- property theorems only.  Proofs live in C08/Proofs*.v. *)
 From Coq Require Import NArith List Bool Permutation.
-From DV Require Import Base.Outcome C08.Gen C08.Model C08.Spec C08.ProofsQuery C08.ProofsBuild C08.ProofsHist C08.ProofsGood C08.ProofsPlain C08.ProofsGroup C08.ProofsSafe C08.ProofsTree C08.ProofsSafe2 C08.ToMessage.
+From DV Require Import Base.Outcome C08.Gen C08.Model C08.Spec C08.ProofsQuery C08.ProofsBuild C08.ProofsHist C08.ProofsGood C08.ProofsPlain C08.ProofsGroup C08.ProofsSafe C08.ProofsTree C08.ProofsSafe2 C08.ToMessage C08.ProofsOrder.
 From DV Require C02.Model C02.ProofsTotal.
 Import ListNotations.
 Local Open Scope N_scope.
@@ -165,6 +165,47 @@ Theorem C08_history_vs_rebuilt : forall rs us rs',
   forall q qt, query (run (map OZRec rs ++ us)) q qt = query (run (map OZRec rs')) q qt.
 Proof. exact history_vs_rebuilt. Qed.
 Print Assumptions C08_history_vs_rebuilt.
+
+(* premises on record lists only *)
+Theorem C08_entry_order : forall rs, accepted rs = true -> forall o, entry_types (zf_of_records rs) o = ntypes rs o.
+Proof. exact entry_order. Qed.
+Print Assumptions C08_entry_order.
+
+Theorem C08_zf_state_records : forall rs, accepted rs = true -> buildable (zf_of_records rs) = true ->
+  forall p, zf_state (zf_of_records rs) p = rec_state rs p.
+Proof. exact zf_state_records. Qed.
+Print Assumptions C08_zf_state_records.
+
+Theorem C08_history_vs_rebuilt_records : forall rs us rs',
+  accepted rs = true -> buildable (zf_of_records rs) = true -> forallb ext_safe_op us = true ->
+  accepted rs' = true -> buildable (zf_of_records rs') = true ->
+  (forall p, rrsets_at (run (map OZRec rs ++ us)) p = rrsets_at (run (map OZRec rs')) p) ->
+  (forall p, rec_state rs' p = sp_final us (rec_state rs) p) ->
+  forall q qt, query (run (map OZRec rs ++ us)) q qt = query (run (map OZRec rs')) q qt.
+Proof. exact history_vs_rebuilt_records. Qed.
+Print Assumptions C08_history_vs_rebuilt_records.
+
+Theorem C08_zonetree_classes_isolated : forall c p z r r' c' q, c' <> c ->
+  (zr_insert c p z r = Ok r' \/ zr_remove c p r = Ok r') ->
+  zr_find c' q r' = zr_find c' q r /\ zr_getz c' q r' = zr_getz c' q r.
+Proof. exact zonetree_classes_isolated. Qed.
+Print Assumptions C08_zonetree_classes_isolated.
+
+Theorem C08_zonetree_find_in_class : forall c q r,
+  zr_find c q r = match zr_get c r with Some n => last_some (map (zt_get n) (prefixes q)) | None => None end.
+Proof. exact zonetree_find_in_class. Qed.
+Print Assumptions C08_zonetree_find_in_class.
+
+(* to_message when a record does not fit: the unwrapping shape panics, the truncating shape keeps the prefix and sets TC *)
+Theorem C08_to_message_panics_when_answer_does_not_fit_refuted :
+  to_message_truncates = false -> c08_tomsg (Some 512) false ex_qname 1 40 4 = None.
+Proof. exact to_message_unwrap_panics. Qed.
+Print Assumptions C08_to_message_panics_when_answer_does_not_fit_refuted.
+
+Theorem C08_to_message_truncating_flags : to_message_truncates = true ->
+  c08_tomsg (Some 512) false ex_qname 1 40 4 = Some (15, true) /\ c08_tomsg None false ex_qname 1 40 4 = Some (40, false).
+Proof. exact to_message_truncating_flags. Qed.
+Print Assumptions C08_to_message_truncating_flags.
 
 Theorem C08_referral_carries_glue : forall zf q qt p c, wf_zone zf = true ->
   find_cut (flat_view zf) q = Some (p, c) -> (name_eqb p q && (qt =? rt_ds)) = false ->
